@@ -83,18 +83,25 @@ func opNames(seq []int) []string {
 func c20SeqSub() *engine.Sub {
 	return &engine.Sub{
 		Name: "sequential-state-graph",
-		Rule: "explicit-state search: state = deep structural dump of the shared invocation and its two delegations (private fields via reflect/unsafe, slices in storage order, maps sorted); transitions = each of 27 read-only operations; all operation sequences up to the depth bound from every token variant (argument/metadata keys inserted in every order of 0..3 keys, constructed and decoded). Invariant in every state: the dump equals the initial dump (the reachable graph has one state per variant) and the operation's result equals its result when run alone on a fresh equal token; non-trivial = sequences of length >= 2",
+		Rule: "explicit-state search: state = deep structural dump of the shared invocation and its two delegations (private fields via reflect/unsafe, slices in storage order, maps sorted); transitions = each of 29 read-only operations; all operation sequences up to the depth bound from every token variant (argument/metadata keys inserted in every order of 0..3 keys, constructed and decoded). Invariant in every state: the dump equals the initial dump (the reachable graph has one state per variant) and the operation's result equals its result when run alone on a fresh equal token; non-trivial = sequences of length >= 2",
 		Bound: func(t string) string {
-			return fmt.Sprintf("20 token variants x all sequences of <=%d operations out of 27", tierN(t, 2, 3))
+			return fmt.Sprintf("24 token variants x all sequences of <=%d operations out of 29", tierN(t, 2, 3))
 		},
 		Setup: func(string) error {
 			// a fixture whose chain is denied before the policies are reached would make most of the
 			// alphabet vacuous: the plain checks must succeed and the violating hook must be refused by policy
 			for _, v := range c20ops.Variants() {
 				f := c20ops.NewFixture(v)
-				for _, op := range c20Ops {
+				for oi, op := range c20Ops {
 					r := op.Run(f, nil)
+					// the run-alone baselines are taken here, once, in operation order, before anything else ran
+					c20Baseline.LoadOrStore(v.String()+"|"+op.Name, r)
+					_ = oi
 					switch {
+					case op.Name == "inv.Meta.GetEncrypted(other key)":
+						if r != "refused" {
+							return fmt.Errorf("harness: fixture %s: reading the encrypted entry with another key answers %q in a fresh process", v, r)
+						}
 					case op.Name == "inv.ExecutionAllowedWithArgsHook(violating)":
 						if !strings.Contains(r, "policy is not satisfied") {
 							return fmt.Errorf("harness: fixture %s: %s = %q, want a policy refusal", v, op.Name, r)
@@ -186,12 +193,12 @@ func c20SchedVariants() []c20ops.Variant {
 func c20SchedSub() *engine.Sub {
 	return &engine.Sub{
 		Name: "interleavings-at-callback-seams",
-		Rule: "cooperative scheduler: logical threads each run one read-only operation on the same shared tokens; scheduling points are the callback seams of the library (Loader.GetDelegation, the argument hook, every Write of the streaming encoders, every yield of Arguments().Iter / Meta().Iter). All schedules up to the preemption bound are enumerated (stateless DFS, prefix replay, divergence = hard error). Oracle: every thread's result equals its run-alone result on a fresh equal token and the final dump equals the initial dump; non-trivial = schedules with at least one context switch before a thread finished",
+		Rule: "cooperative scheduler: logical threads each run one read-only operation on the same shared tokens; scheduling points are the callback seams of the library (Loader.GetDelegation, the argument hook, the first 12 and then every 24th Write of the streaming encoders, every yield of Arguments().Iter / Meta().Iter). All schedules up to the preemption bound are enumerated (stateless DFS, prefix replay, divergence = hard error). Oracle: every thread's result equals its run-alone result on a fresh equal token and the final dump equals the initial dump; non-trivial = schedules with at least one context switch before a thread finished",
 		Bound: func(t string) string {
 			if t == "thorough" {
-				return "5 token variants x all ordered pairs of 27 operations with <=2 preemptions, and all ordered triples of 8 seam-bearing operations with <=1 preemption"
+				return "5 token variants x all ordered pairs of 29 operations with <=2 preemptions, and all ordered triples of 8 seam-bearing operations with <=1 preemption"
 			}
-			return "5 token variants x all ordered pairs of 27 operations with <=1 preemption"
+			return "5 token variants x all ordered pairs of 29 operations with <=1 preemption"
 		},
 		Gen: func(tier string, emit func(any) bool) {
 			for _, v := range c20SchedVariants() {
@@ -294,12 +301,19 @@ func c20SchedSub() *engine.Sub {
 				judge(env, s)
 				return
 			}
+			before := engine.Divergences.Load()
+			engine.Tolerant = true
 			_, capped, err := engine.ExploreSchedules(bound, 200000, mk, judge)
 			if err != nil {
 				panic(err)
 			}
+			if d := engine.Divergences.Load() - before; d > 0 {
+				ctx.OutcomeN("schedule-replay-diverged", d)
+				ctx.Inexact("schedule replays diverged: the code under test keeps state across executions, so the enumeration of interleavings is not exhaustive there")
+			}
 			if capped {
 				ctx.Outcome("schedule-cap-hit")
+				ctx.Inexact("more than 200000 schedules for one tuple of operations")
 			}
 		},
 	}
@@ -321,9 +335,9 @@ func c20RaceSub() *engine.Sub {
 		Name:    "race-detector-pairs",
 		Serial:  true,
 		Replays: 1, // each replay is a separate `go test -race` process; the detector's verdict is happens-before based
-		Rule:    "free-running pass: the same operation bodies, every unordered pair of the 27 operations (an operation with itself included) on 4 token variants, two goroutines released by a barrier, as sub-tests of `go test -race -tags verif ./racepass`, built from /repo's working tree. A sub-test the detector marks failed ('race detected during execution of test') is a violation attributed to that pair. The verdict is happens-before based, so it does not depend on the actual timing of the two goroutines; non-trivial = all pairs",
+		Rule:    "free-running pass: the same operation bodies, every unordered pair of the 29 operations (an operation with itself included) on 4 token variants, two goroutines released by a barrier, as sub-tests of `go test -race -tags verif ./racepass`, built from /repo's working tree. A sub-test the detector marks failed ('race detected during execution of test') is a violation attributed to that pair. The verdict is happens-before based, so it does not depend on the actual timing of the two goroutines; non-trivial = all pairs",
 		Bound: func(string) string {
-			return "378 unordered pairs x 4 variants + first-use of lazily built globals from 2 goroutines"
+			return "435 unordered pairs x 4 variants + first-use of lazily built globals from 2 goroutines"
 		},
 		Gen: func(tier string, emit func(any) bool) {
 			emit(&c20RaceCase{})
